@@ -379,6 +379,22 @@ def encGet (d : Dict) (key : Str) (valid : WVal → Bool) : R :=
   let v := (d.get? key).getD .null
   if v.truthy && !valid v then fail .protocol key else .ok v
 
+/-- `args = wmsg[k+1]` type check -/
+def checkArgs : ArgsVariant → WVal → R
+  | .std, .null => .ok .null
+  | _, .list xs => .ok (.list xs)
+  | .publish, .str s => .ok (.str s)
+  | .publish, .bytes b => .ok (.bytes b)
+  | _, _ => fail .protocol cs!"args"
+
+/-- `kwargs = wmsg[k+2]` type check (keys are validated later, by the constructor) -/
+def checkKwargs : ArgsVariant → WVal → R
+  | _, .dict kvs => .ok (.dict kvs)
+  | _, .dictNS kvs => .ok (.dictNS kvs)
+  | .publish, .str s => .ok (.str s)
+  | .publish, .bytes b => .ok (.bytes b)
+  | _, _ => fail .protocol cs!"kwargs"
+
 /-- the six tail fields, in the order the real `parse` evaluates them -/
 def parseTail (O : Oracles) (t : TailSpec) (k : Nat) (d : Dict) (w : List WVal) : Except Err Msg :=
   if payloadMode t k w then do
@@ -388,24 +404,8 @@ def parseTail (O : Oracles) (t : TailSpec) (k : Nat) (d : Dict) (w : List WVal) 
     pure [(cs!"args", .null), (cs!"kwargs", .null), (cs!"payload", w.getD (k + 1) .null),
           (cs!"enc_algo", algo), (cs!"enc_key", key), (cs!"enc_serializer", ser)]
   else do
-    let args ←
-      if w.length > k + 1 then
-        (match t.variant, w.getD (k + 1) .null with
-         | .std, .null => .ok .null
-         | _, .list xs => .ok (.list xs)
-         | .publish, .str s => .ok (.str s)
-         | .publish, .bytes b => .ok (.bytes b)
-         | _, _ => fail .protocol cs!"args")
-      else (.ok .null : R)
-    let kwargs ←
-      if w.length > k + 2 then
-        (match t.variant, w.getD (k + 2) .null with
-         | _, .dict kvs => .ok (.dict kvs)
-         | _, .dictNS kvs => .ok (.dictNS kvs)
-         | .publish, .str s => .ok (.str s)
-         | .publish, .bytes b => .ok (.bytes b)
-         | _, _ => fail .protocol cs!"kwargs")
-      else (.ok .null : R)
+    let args ← if w.length > k + 1 then checkArgs t.variant (w.getD (k + 1) .null) else (.ok .null : R)
+    let kwargs ← if w.length > k + 2 then checkKwargs t.variant (w.getD (k + 2) .null) else (.ok .null : R)
     pure [(cs!"args", args), (cs!"kwargs", kwargs), (cs!"payload", .null),
           (cs!"enc_algo", .null), (cs!"enc_key", .null), (cs!"enc_serializer", .null)]
 
